@@ -709,32 +709,11 @@ func checkC14(c *Ctx, r *Report) {
 	}
 	if fn := c.Func(pkg, "writeCtrlFrame"); fn != nil {
 		o := r.Add("C14-framing", fnName(fn), "serial prefix C: and CRC over the command", c.pos(fn.Pos()))
-		prefix := false
-		eachInstr(fn, func(_ *ssa.BasicBlock, _ int, in ssa.Instruction) {
-			if ph, ok := in.(*ssa.Phi); ok {
-				for i, e := range ph.Edges {
-					if s, _ := constString(e); s == "C:" {
-						for _, cd := range append(condsAt(ph.Block().Preds[i]), edgeCond(ph.Block().Preds[i], ph.Block())...) {
-							if pathOf(cd.V) == "isTCP" && !cd.Truth {
-								prefix = true
-							}
-						}
-					}
-				}
-			}
-		})
-		crc := false
-		for _, ci := range callsTo(fn, false, pkg+".crc16Sum") {
-			for _, cd := range condsAt(ci.Block()) {
-				if pathOf(cd.V) == "isTCP" && !cd.Truth {
-					crc = true
-				}
-			}
-		}
-		if prefix && crc {
-			o.OK("non-TCP commands are prefixed \"C:\" and followed by the big-endian crc16Sum of the command text")
+		// decided on the bytes that reach the writer, whichever calls put them there (ip_i3.go)
+		if ok, text := c.i3CtrlFraming(pkg, fn); ok {
+			o.OK("%s", text)
 		} else {
-			o.Bad("serial command frames are not framed as C: + command + CRC (prefix: %v, crc on the serial edge: %v)", prefix, crc)
+			o.Bad("%s", text)
 		}
 	}
 	if fn := c.Func(pkg, "readFrameOfType"); fn != nil {
